@@ -217,3 +217,58 @@ Theorem h2_meta_noreset_refuted :
   h2_meta_seq_with h2_meta_from_noreset true 65536 [bad; good] =
     [MErr (EStream 1 ErrCodeProtocol); MOk [] false].
 Proof. cbv zeta. split; vm_compute; reflexivity. Qed.
+
+(* ---------- the decoder is between two blocks whenever the connection lives on ---------- *)
+Theorem h2_meta_decoder_always_closed dec mx sid su torn frags r e o :
+  h2_meta_run2 true dec mx sid su torn frags = (r, Some (e, o)) -> o = false.
+Proof.
+  unfold h2_meta_run2. destruct (snd dec && su); [discriminate|].
+  destruct (h2_meta_run true mx sid frags) as [r0 [e0|]]; [|discriminate].
+  destruct torn; [discriminate|]. intro H. inversion H. reflexivity.
+Qed.
+
+(* one block read with the decoder closed: what it yields depends neither on the emit flag left
+   behind nor on whether the block opens with a dynamic table size update *)
+Definition h2_meta_block (mx : N) (b : N * (bool * bool) * list (N * list hfield)) : meta_res :=
+  let '(sid, (su, torn), frags) := b in fst (h2_meta_run2 true (true, false) mx sid su torn frags).
+
+Lemma h2_meta_run2_closed e mx sid su torn frags :
+  h2_meta_run2 true (e, false) mx sid su torn frags =
+  h2_meta_run2 true (true, false) mx sid false torn frags.
+Proof. unfold h2_meta_run2. cbn [snd andb]. reflexivity. Qed.
+
+Theorem h2_meta_seq2_independent mx blocks : forall e,
+  h2_meta_seq2 true (e, false) mx blocks = until_conn_err (map (h2_meta_block mx) blocks).
+Proof.
+  induction blocks as [|[[sid [su torn]] frags] blocks IH]; intro e; [reflexivity|].
+  cbn [h2_meta_seq2 map until_conn_err h2_meta_block].
+  rewrite (h2_meta_run2_closed e), (h2_meta_run2_closed true mx sid su).
+  destruct (h2_meta_run2 true (true, false) mx sid false torn frags) as [res d'] eqn:R. cbn [fst]. f_equal.
+  destruct d' as [[e' o]|].
+  - pose proof (h2_meta_decoder_always_closed _ _ _ _ _ _ _ _ _ R) as ->.
+    assert (C : is_conn_err res = false).
+    { unfold h2_meta_run2 in R. cbn [snd andb] in R.
+      pose proof (meta_run_none_iff true mx sid frags) as NI.
+      destruct (h2_meta_run true mx sid frags) as [r0 [e0|]]; [|discriminate]. cbn [fst snd] in NI.
+      destruct torn; [discriminate|]. inversion R; subst.
+      destruct (is_conn_err res) eqn:C; [|reflexivity]. destruct NI as [_ NI]. specialize (NI eq_refl). discriminate. }
+    rewrite C. apply IH.
+  - assert (C : is_conn_err res = true).
+    { unfold h2_meta_run2 in R. cbn [snd andb] in R.
+      pose proof (meta_run_none_iff true mx sid frags) as NI.
+      destruct (h2_meta_run true mx sid frags) as [r0 [e0|]]; cbn [fst snd] in NI.
+      - destruct torn; [inversion R; reflexivity|discriminate].
+      - inversion R; subst. apply NI. reflexivity. }
+    rewrite C. reflexivity.
+Qed.
+
+(* returning the malformed-field stream error before hdec.Close() leaves the decoder in mid-block:
+   the valid block that follows, opening with a dynamic table size update, kills the connection *)
+Theorem h2_meta_close_after_invalid_refuted :
+  let bad := (1, (false, false), [(10, [(bs ":status", bs "200"); (bs "X-Upper", bs "v")])]) in
+  let good := (3, (true, false), [(10, [(bs ":status", bs "200"); (bs "server", bs "x")])]) in
+  h2_meta_seq2 true (true, false) 65536 [bad; good] =
+    [MErr (EStream 1 ErrCodeProtocol); MOk [(bs ":status", bs "200"); (bs "server", bs "x")] false] /\
+  h2_meta_seq2 false (true, false) 65536 [bad; good] =
+    [MErr (EStream 1 ErrCodeProtocol); MErr (EConn ErrCodeCompression)].
+Proof. cbv zeta. split; vm_compute; reflexivity. Qed.
